@@ -1,8 +1,8 @@
 """Catalogue for C17."""
 from cat.common import *
 
-_STD_US = {'ll_strlen.0': 12, 'll_memcmp.0': 12, 'll_memcpy.0': 12, 'll_memcpy.1': 12, 'll_memmove.0': 12, 'll_memmove.1': 12,
-           'll_memmove.2': 12, 'll_memmove.3': 12, 'll_memchr.0': 12}
+_STD_US = {'ll_strlen.0': 20, 'll_memcmp.0': 20, 'll_memcpy.0': 20, 'll_memcpy.1': 20, 'll_memmove.0': 20, 'll_memmove.1': 20,
+           'll_memmove.2': 20, 'll_memmove.3': 20, 'll_memchr.0': 20}
 
 _DISJUNCT = '_ZNKSt7__cxx1112basic_stringIcSt11char_traitsIcESaIcEE11_M_disjunctEPKc'
 _QPARTS, _TPARTS = 4, 16
